@@ -145,6 +145,58 @@ func idExactnessRule(c *Ctx) {
 }
 
 func rulesC19(c *Ctx) {
+	c.Rule("R-C19-12", "what goes on the wire is produced by the JSON encoder: every MarshalJSON method of the protocol types returns the output of a Marshal call (of a wire struct, a converted value or nested Marshal results) — no hand-assembled JSON text, whose escaping rules differ from JSON's (strconv.Quote writes \\x1b, \\a, \\U0001f600)", func() {
+		n := 0
+		isMarshalCall := func(f *Func, e ast.Expr) bool {
+			ce, ok := ast.Unparen(e).(*ast.CallExpr)
+			if !ok {
+				return false
+			}
+			fn := f.Callee(ce)
+			return fn != nil && (fn.Name() == "Marshal" || fn.Name() == "MarshalJSON" || fn.Name() == "MarshalIndent")
+		}
+		for _, rel := range []string{pM, pJ} {
+			for _, f := range c.P.FuncsIn(rel) {
+				if f.Obj == nil || f.Obj.Name() != "MarshalJSON" || f.Decl.Recv == nil {
+					continue
+				}
+				c.touch(f)
+				for i, r := range f.Returns() {
+					var val ast.Expr
+					switch len(r.Results) {
+					case 1:
+						val = r.Results[0]
+					case 2:
+						if isNilIdent(r.Results[0]) {
+							continue // an error return
+						}
+						val = r.Results[0]
+					default:
+						continue
+					}
+					n++
+					ok := isMarshalCall(f, val)
+					if id, isID := ast.Unparen(val).(*ast.Ident); isID && !ok {
+						obj := f.ObjOf(id)
+						ws := f.writesToVar(f.Body, obj, false)
+						ok = len(ws) > 0
+						for _, w := range Writes(f.Body, false) {
+							if f.ObjOf(w.LHS) != obj {
+								continue
+							}
+							as, isAs := w.Stmt.(*ast.AssignStmt)
+							if !isAs || len(as.Rhs) != 1 || !isMarshalCall(f, as.Rhs[0]) {
+								ok = false
+							}
+						}
+					}
+					c.Check(ok, "MarshalJSON:encoder-output:"+f.Name()+"#"+itoa(i), f, r, "the bytes returned are the result of a Marshal call (got %s)", exprStr(val))
+				}
+			}
+		}
+		c.Pin("value returns of MarshalJSON methods", n, 15)
+	})
+
 	c.Import("R-C19-11", "decoding never panics on malformed framing: a line that is not a message or a batch ends in an error before any element of the decoded slice is touched, an empty batch is refused, an undecodable element fails the whole batch", "C02", "R-C02-5", func(k string) bool {
 		return strings.HasPrefix(k, "ioConn.Read:readBatch") || strings.HasPrefix(k, "readBatch:") || strings.Contains(k, "readBatch")
 	})
